@@ -150,6 +150,44 @@ fn add_append_wrong_length_rejected() {
     kani::cover!(len == 6 && dim == 4);
 }
 
+/// The same rejection under a quantised metric: the error states the number of values the caller
+/// passed, not the padded width of their quantised encoding (C19).
+#[kani::proof]
+#[kani::unwind(20)]
+#[kani::stub(alloc::fmt::format, stub_format)]
+fn add_append_wrong_length_rejected_bq() {
+    let mut store = Store::new();
+    sym_store(&mut store, 1, 16);
+    let before = snap(&store);
+    let index: u16 = kani::any();
+    let item: u32 = kani::any();
+    // concrete lengths keep the quantiser's loops (reached only by a wrong implementation) small
+    let dim: usize = 3;
+    let len: usize = 5;
+    let buf: [f32; 6] = kani::any();
+    let w = writer::<BinaryQuantizedEuclidean>(index, dim);
+    let mut wtxn = RwTxn::on(&mut store);
+    let r = if kani::any() {
+        w.add_item(&mut wtxn, item, &buf[..len])
+    } else {
+        w.append_item(&mut wtxn, item, &buf[..len])
+    };
+    match r {
+        Err(Error::InvalidVecDimension { expected, received }) => {
+            assert!(expected == dim && received == len);
+        }
+        other => {
+            core::mem::forget(other);
+            assert!(false);
+        }
+    }
+    let st = wtxn.store();
+    assert!(frame_except(&before, st, |_| false));
+    assert!(st.writes == 0);
+    kani::cover!(index == 65535);
+    kani::cover!(item == u32::MAX);
+}
+
 /// append_item: succeeds iff the new item key sorts after every key of the whole database (any
 /// index), and then behaves exactly like add_item; otherwise InvalidItemAppend and no change.
 #[kani::proof]
